@@ -61,3 +61,18 @@ Proof.
   - destruct r; unfold fresh_ticket in E; inversion E; subst; [left; auto|right; split; reflexivity..].
 Qed.
 End Order.
+
+(* the whole command list: the log of the list is the concatenation, in list order, of the blocks logged by the single
+   commands (each block containing everything that command transitively caused) *)
+Section Blocks.
+Variable P : program.
+Theorem command_list_logs_blocks_in_order : forall cs f w w', exec P f (IApplyList cs) w = Ok w' ->
+  exists blocks, length blocks = length cs /\ log w' = log w ++ concat blocks.
+Proof.
+  induction cs as [|c cs IH]; intros f w w' E; (destruct f as [|f]; [discriminate E|]).
+  - cbn [exec] in E. inversion E; subst. exists []. split; [reflexivity|]. cbn. rewrite app_nil_r. reflexivity.
+  - destruct (commands_telescope P f c cs w w' E) as (w1 & l1 & l2 & E1 & E2 & H1 & H2).
+    destruct (IH f w1 w' E2) as (bs & Hlen & Hlog). exists (l1 :: bs). split; [cbn; rewrite Hlen; reflexivity|].
+    cbn [concat]. rewrite Hlog, H1, app_assoc. reflexivity.
+Qed.
+End Blocks.
